@@ -225,6 +225,12 @@ def check(ld, prog, res):
             oP = observe(programs.build(ld, prog, fns=fns), n, idx)
             nontrivial = len(oP['iter1'][0]) >= 1
             res.count('transparency_comparisons')
+            if buffered(prog) and any(op[0] in ('reshuffle', 'localshuffle')
+                                      for op in prog['ops']):
+                # a background thread reads ahead through the random stage: how
+                # many draws it has consumed when an iteration stops early (or
+                # fails) depends on timing, so only the first pass is comparable
+                oP = {k: oP[k] for k in ('iter1', 'len', 'keys')}
             for k in oP:
                 if oP[k] != oW.get(k):
                     a, b = oP[k], oW.get(k)
